@@ -26,6 +26,16 @@ def gen(rng, tier):
             # unseen levels only in grouping variables g, h (mode silent) so that common terms using them stay legal
             chain.append(new)
         cases.append({"formula": f, "frame": fr, "na": "drop", "chain": chain, "kind": "random"})
+    # a level that is literally named 'mean' next to the [mean] column of a full-rank Sum coding
+    for _ in range(200 if tier == "thorough" else 20):
+        fr = gen_dm.make_frame(rng)
+        for col in fr["columns"]:
+            if col["name"] == "f":
+                # 'mean' sorts first here, so it is a kept level under the default omission of the last one
+                col["values"] = ["mean" if v == "a" else "z" + v for v in col["values"]]
+        f = "y ~ " + rng.choice(["0 + S(f)", "0 + C(f, Sum)", "x + S(f)", "0 + S(f):g", "x + (0 + S(f) | g)", "0 + f",
+                                 "S(f, 'mean')", "0 + C(f, Sum('mean'))"])
+        cases.append({"formula": f, "frame": fr, "na": "drop", "chain": [], "kind": "mean-level"})
     return cases
 
 
@@ -94,7 +104,7 @@ def compare(c, mo, obs):
     return None
 
 
-def _check_container(obj, what, nrows, labels=None):
+def _check_container(obj, what, nrows, labels=None, mean_level=False):
     import numpy as np
     M = np.asarray(obj.design_matrix)
     if M.ndim != 2:
@@ -131,7 +141,10 @@ def _check_container(obj, what, nrows, labels=None):
             return f"{what}: {len(labels)} labels for {M.shape[1]} columns"
         if len(set(labels)) != len(labels):
             dup = sorted(l for l in set(labels) if labels.count(l) > 1)[:3]
-            return f"{what}: column labels are not unique: {dup}"
+            # listed finding KF-C17-2: the [mean] column of a full-rank Sum coding collides with a level
+            # that is literally named 'mean'
+            tag = "[class:level_named_mean] " if all("[mean]" in l for l in dup) and mean_level else ""
+            return f"{tag}{what}: column labels are not unique: {dup}"
     return None
 
 
@@ -144,6 +157,8 @@ def oracle(c):
     df0 = dm.to_pandas(c["frame"])
     n = len(df0)
     f = c["formula"]
+    mean_level = any("mean" in [str(v) for v in col["values"]] for col in c["frame"]["columns"]
+                     if col["type"] in ("str", "cat", "ordcat"))
     resp, common, group = d
     if (resp is not d.response) or (common is not d.common) or (group is not d.group):
         return f"{f!r}: tuple unpacking does not return the three members"
@@ -172,14 +187,14 @@ def oracle(c):
             cdf = d.common.as_dataframe()
         except Exception as e:
             return f"{f!r}: common.as_dataframe() raises {type(e).__name__}: {str(e)[:60]}"
-        err = _check_container(d.common, f"{f!r} common", n, [str(x) for x in cdf.columns])
+        err = _check_container(d.common, f"{f!r} common", n, [str(x) for x in cdf.columns], mean_level)
         if err:
             return err
         if not np.array_equal(np.asarray(cdf), np.asarray(d.common.design_matrix), equal_nan=True):
             return f"{f!r}: common.as_dataframe() differs from design_matrix"
     if d.group is not None:
         labs = [l for t in d.group.terms.values() for l in t.labels]
-        err = _check_container(d.group, f"{f!r} group", n, labs)
+        err = _check_container(d.group, f"{f!r} group", n, labs, mean_level)
         if err:
             return err
     for k, new in enumerate(c["chain"]):
